@@ -137,12 +137,12 @@ func ErrClass(err error) string {
 		return "err:notfound"
 	case errors.Is(err, repositories.ErrServerExists):
 		return "err:exists"
+	case strings.Contains(err.Error(), "injected storage fault"):
+		return "err:storage"
 	case strings.Contains(err.Error(), "check lock ownership"):
 		return "err:locklost"
 	case strings.Contains(err.Error(), "lock not acquired after"):
 		return "err:exhausted"
-	case strings.Contains(err.Error(), "injected storage fault"):
-		return "err:storage"
 	}
 	return "err:other:" + strings.ReplaceAll(err.Error(), " ", "_")
 }
